@@ -271,16 +271,39 @@ def check_bph_branches(chk) -> None:
         want_test = f"(atom_i.name in {acc_list} or atom_j.name in {acc_list}) and atom_i not in used_atoms and (atom_j not in used_atoms)"
         chk.expect(norm(b.test) == want_test, "bph-branch", fi.site(b), f"{name}: one of the two atoms is a {acc_list[:-1].lower().replace('_', ' ')} and neither atom is used yet", f"{name} branch condition changed: `{norm(b.test)[:100]}`", K(fi, f"{name}-test"), expected=want_test, found=norm(b.test))
         chk.expect(isinstance(b.body[-1], ast.Continue), "bph-branch", fi.site(b), "the branch consumes the contact (continue)", f"{name} branch does not end the iteration: the contact also counts as a base-base hydrogen bond", K(fi, f"{name}-continue"))
-        sel = [s for s in b.body if isinstance(s, ast.If) and norm(s.test) in ("type_i == 'donor'", "type_j == 'acceptor'")]
-        ok = False
-        if len(sel) == 1:
-            ok = [flat(x) for x in sel[0].body] == [flat("donor_residue, acceptor_residue = residue_i, residue_j"), flat("donor_atom, acceptor_atom = atom_i, atom_j")] and [flat(x) for x in sel[0].orelse] == [flat("donor_residue, acceptor_residue = residue_j, residue_i"), flat("donor_atom, acceptor_atom = atom_j, atom_i")]
-        chk.expect(ok, "bph-roles", fi.site(b), "donor side = the atom typed donor, acceptor side = the other", f"{name}: donor/acceptor roles are not assigned from the atom types", K(fi, f"{name}-roles"))
-        cls = [v for s, v in astq.assignments(b, "bph" if name == "base-phosphate" else "br") if v is not None]
-        chk.expect(len(cls) == 1 and norm(cls[0]) == "detect_bph_br_classification(donor_residue, donor_atom, acceptor_atom)", "bph-roles", fi.site(b), "class from detect_bph_br_classification(donor residue, donor atom, acceptor atom)", f"{name}: class is not computed from (donor_residue, donor_atom, acceptor_atom)", K(fi, f"{name}-class-call"))
+        # roles: the statements of the branch up to the classification call, evaluated for both typings of the contact
+        from sa.blockeval import BlockEval, Unknown
+
+        v_cls = "bph" if name == "base-phosphate" else "br"
+        cut = [k for k, x in enumerate(b.body) if isinstance(x, ast.Assign) and norm(x.targets[0]) == v_cls]
+        if not cut:
+            chk.error("bph-roles", fi.site(b), f"{name}: classification call not found")
+        else:
+            frag = [x for x in b.body[: cut[0]] if not (isinstance(x, ast.Expr) and isinstance(x.value, ast.Call) and norm(x.value.func).startswith("logging"))]
+            call = b.body[cut[0]].value
+            bad = {}
+            try:
+                for ti, tj in (("donor", "acceptor"), ("acceptor", "donor")):
+                    ev = BlockEval(repo, AN, {"type_i": ti, "type_j": tj, "residue_i": "Ri", "residue_j": "Rj", "atom_i": "Ai", "atom_j": "Aj"})
+                    ev.run(frag)
+                    ev.env["detect_bph_br_classification"] = lambda *a: a
+                    got = ev.fold(call)
+                    want = ("Ri", "Ai", "Aj") if ti == "donor" else ("Rj", "Aj", "Ai")
+                    wantp = ("Ri", "Rj") if ti == "donor" else ("Rj", "Ri")
+                    ev.env[v_cls] = "CLS"
+                    recs = [a for a in astq.calls(b, "append") if astq.dotted(a.func.value) == store and a.args]
+                    rec = ev.fold(recs[0].args[0]) if len(recs) == 1 else None
+                    gotp = tuple(rec[:2]) if isinstance(rec, tuple) and len(rec) == 3 and rec[2] == "CLS" else rec
+                    if got != want or gotp != wantp:
+                        bad[f"atom_i is the {ti}"] = {"classified": got, "pair": gotp}
+                chk.expect(not bad, "bph-roles", fi.site(b), f"{name}: the class is computed from (donor residue, donor atom, acceptor atom) and the pair is (donor residue, acceptor residue), for both typings of the contact", f"{name}: donor/acceptor roles are wrong: {bad}", K(fi, f"{name}-roles"), found={k: str(v) for k, v in bad.items()})
+            except Unknown as ex:
+                chk.error("bph-roles", fi.site(b), f"{name}: role assignment not evaluable: {ex}")
+            except Exception as ex:
+                chk.error("bph-roles", fi.site(b), f"{name}: role assignment not evaluable: {type(ex).__name__} {ex}")
         apps = [a for a in astq.calls(b, "append") if astq.dotted(a.func.value) == store]
         v = "bph" if name == "base-phosphate" else "br"
-        ok = len(apps) == 1 and norm(apps[0].args[0]) == f"(donor_residue, acceptor_residue, {v})" and any(norm(g.test) == f"{v} is not None" and g.polarity for g in fm.guards_within(fm.stmt_of(apps[0]), b))
+        ok = len(apps) == 1 and isinstance(apps[0].args[0], ast.Tuple) and len(apps[0].args[0].elts) == 3 and norm(apps[0].args[0].elts[2]) == v and any(norm(g.test) == f"{v} is not None" and g.polarity for g in fm.guards_within(fm.stmt_of(apps[0]), b))
         used = sorted(norm(a.args[0]) for a in astq.calls(b, "add") if astq.dotted(a.func.value) == "used_atoms")
         chk.expect(ok and used == ["atom_i", "atom_j"], "bph-record", fi.site(b), f"a classified contact is recorded as (donor residue, acceptor residue, class) and both atoms are marked used", f"{name}: a classified contact is not recorded as (donor_residue, acceptor_residue, class) with both atoms marked used", K(fi, f"{name}-record"))
     # emission
@@ -296,12 +319,20 @@ def check_bph_branches(chk) -> None:
             ok = ok and len(unp) == 1 and flat(loops[0].target) in ("pair,bphs", "pair,brs")
         chk.expect(ok, "bph-emission", fi.where, f"every (pair, class) of {mp} becomes {cls}(donor, acceptor, {en}[_class])", f"{cls} objects are not built as (Residue(donor), Residue(acceptor), {en}[f'_{{class}}']) from {mp}", K(fi, f"{mp}-emission"))
     # base pair emission
-    loops = [l for l in fi.node.body if isinstance(l, ast.For) and "base_base_pairs" in astq.names(l.iter)]
-    ok = len(loops) == 1 and norm(loops[0].iter) == "sorted(base_base_pairs)" and norm(loops[0].target) == "(residue_i, residue_j, lw)"
-    if ok:
-        cons = [c for c in ast.walk(loops[0]) if isinstance(c, ast.Call) and astq.callee_name(c) == "BasePair"]
-        ok = len(cons) == 1 and [norm(a) for a in cons[0].args] == ["Residue(residue_i.label, residue_i.auth)", "Residue(residue_j.label, residue_j.auth)", "lw", "detect_saenger(residue_i, residue_j, lw)"]
-    chk.expect(ok, "sorted-emission", fi.where, "base pairs are emitted from sorted(base_base_pairs) as BasePair(first, second, lw, saenger of the same triple)", "base pairs are not emitted by iterating sorted(base_base_pairs) into BasePair(Residue(i), Residue(j), lw, detect_saenger(i, j, lw))", K(fi, "bp-emission"))
+    ems = c03.find_emission(fi, "base_base_pairs")
+    if len(ems) != 1 or not (isinstance(ems[0][1], ast.Tuple) and len(ems[0][1].elts) == 3 and all(isinstance(e, ast.Name) for e in ems[0][1].elts)):
+        chk.error("sorted-emission", fi.where, "place where the recorded base pairs become BasePair objects not found")
+    else:
+        it, tgt, rec, site = ems[0]
+        a, b, l = (e.id for e in tgt.elts)
+        if norm(it) == "sorted(base_base_pairs)":
+            chk.ok("sorted-emission", fi.site(site), "base pairs are emitted from sorted(base_base_pairs)")
+        elif norm(it) in ("base_base_pairs", "set(base_base_pairs)", "list(base_base_pairs)", "reversed(base_base_pairs)"):
+            chk.violation("sorted-emission", fi.site(site), f"base pairs are emitted by iterating `{norm(it)}`, not sorted(base_base_pairs): the order of the list follows the contact counting order", K(fi, "bp-emission"), found=norm(it))
+        else:
+            chk.error("sorted-emission", fi.site(site), f"emission source `{norm(it)}` not recognised")
+        want = f"BasePair(Residue({a}.label, {a}.auth), Residue({b}.label, {b}.auth), {l}, detect_saenger({a}, {b}, {l}))"
+        chk.expect(norm(rec) == want, "bp-emission-record", fi.site(site), "BasePair(first, second, lw, saenger of the same triple)", f"the emitted base pair is `{norm(rec)[:120]}`, not BasePair(Residue(i), Residue(j), lw, detect_saenger(i, j, lw))", K(fi, "bp-emission"), found=norm(rec))
     rets = [r for r in fi.node.body if isinstance(r, ast.Return)]
     chk.expect(len(rets) == 1 and norm(rets[0].value) == "(base_pairs, base_phosphates, base_riboses)", "result-order", fi.where, "returns (base_pairs, base_phosphates, base_riboses)", "find_pairs does not return (base_pairs, base_phosphates, base_riboses)", K(fi, "result"))
     ebi = repo.func(AN, "extract_base_interactions")
@@ -371,7 +402,7 @@ def run(chk) -> None:
     )
     chk.trusted = ["CPython ast", "pinned class table spec/bph_classes.json (provenance there)", "OrderedSet keeps insertion order"]
     chk.assumptions = ["float tests inside the torsion split are not decided beyond their +-90 degree boundary"]
-    chk.robust |= c03.ROBUST | {"saenger-table", "saenger-pinned", "saenger-values", "saenger-keys", "saenger-symmetric", "saenger-lookup", "lw-reverse", "lw-total", "lw-values", "bph-class-table", "bph-enum-total", "bph-split", "bph-merge", "bph-one-class"}
+    chk.robust |= c03.ROBUST | {"saenger-table", "saenger-pinned", "saenger-values", "saenger-keys", "saenger-symmetric", "saenger-lookup", "lw-reverse", "lw-total", "lw-values", "bph-class-table", "bph-enum-total", "bph-split", "bph-merge", "bph-one-class", "bph-roles"}
     c03.check_find_pairs(chk, parts=("contacts", "labels"))
     check_bph_branches(chk)
     check_merge(chk)
